@@ -38,7 +38,8 @@ def tree_strategy(depth):
 
 
 TREE = tree_strategy(3)
-CASE = st.tuples(st.sampled_from(["upload_dir", "upload_dir", "upload_file", "download", "download", "listrec", "remove", "download_here", "upload_twice"]),
+CASE = st.tuples(st.sampled_from(["upload_dir", "upload_dir", "upload_file", "download", "download", "listrec", "remove", "download_here", "upload_twice",
+                                  "upload_conflict"]),
                  TREE, st.sampled_from(["", "d", "d1/d2", "/abs/d", "src", "../up"]), st.booleans(),
                  st.sampled_from(["/", "/r", "/r/sub"]), st.sampled_from([1, 3, 8192]), st.booleans(), st.booleans(),
                  st.booleans())
@@ -112,7 +113,7 @@ async def _run(loop, case, info):
     op, t, dest, write_into, cwd, block, listonly, abs_spelling, relsrc = case
     if op == "upload_file" and write_into and dest == "":
         dest = "renamed"  # write_into with an empty destination names no file: not a meaningful call
-    if ".." in dest and op not in ("upload_dir", "upload_file", "upload_twice"):
+    if ".." in dest and op not in ("upload_dir", "upload_file", "upload_twice", "upload_conflict"):
         dest = "d"  # (a '..' in a *local* destination is the client file system's business)
     server = aioftp.Server(path_io_factory=aioftp.MemoryPathIO)
     if listonly:
@@ -170,6 +171,47 @@ async def _run(loop, case, info):
                 kind = "misplaced" if d["missing"] and d["unexpected"] else ("missing" if d["missing"] else "unexpected")
                 raise Violation(f"C09/{op}/{kind}/write_into={write_into}/dest_parts={min(len(P(dest).parts), 2)}",
                                 dict(dest=dest, write_into=write_into, cwd=cwd, root=root, **d))
+        elif op == "upload_conflict":
+            # something of the other kind is already in the way on the server (a file where the local tree has a directory,
+            # a directory where it has a file): the upload is refused (raises) or the result is faithful - never a
+            # normal return with a different tree
+            await put(c.path_io, t, "/local/src")
+            src = P("/local/src")
+            root = P(cwd) / dest
+            if not write_into:
+                root = root / src.name
+            root = str(norm(root))
+            want = flat(t, root)
+            existing = harness.mem_tree(server)
+            cands = sorted(k for k in want if k != "/" and k not in existing) or [root.rstrip("/") + "/lonely"]
+            want.setdefault(cands[0], DIR) if cands == [root.rstrip("/") + "/lonely"] else None
+            if cands == [root.rstrip("/") + "/lonely"]:
+                await c.path_io.mkdir(P("/local/src/lonely"), parents=True, exist_ok=True)
+            victim = cands[(block + len(cwd) + len(t)) % len(cands)]
+            await spio.mkdir(P(victim).parent, parents=True, exist_ok=True)
+            if want[victim] == DIR:
+                async with spio.open(P(victim), "wb") as f:
+                    await f.write(b"i am a file")
+            else:
+                await spio.mkdir(P(victim))
+            info["conflict"] = "file_in_place_of_dir" if want[victim] == DIR else "dir_in_place_of_file"
+            info["conflict_empty_dir"] = want[victim] == DIR and not any(k.startswith(victim + "/") for k in want)
+            before = harness.mem_tree(server)
+            try:
+                await c.upload(src, dest, write_into=write_into, block_size=block)
+                refused = False
+            except Exception as e:  # noqa: a refusal is a legitimate outcome here
+                refused = True
+                info["refused"] = type(e).__name__
+            if not refused:
+                after = harness.mem_tree(server)
+                exp = dict(before)
+                exp.update(ancestors(root))
+                exp.update(want)
+                if after != exp:
+                    d = sdiff(after, exp)
+                    raise Violation(f"C09/upload_conflict/returned_normally_but_tree_differs/{info['conflict']}",
+                                    dict(dest=dest, write_into=write_into, cwd=cwd, root=root, in_the_way=victim, **d))
         elif op == "upload_twice":
             # state kept by the client between operations: the same relative destination from two working directories
             if dest.startswith("/"):
@@ -276,7 +318,9 @@ def check(ctx, case):
         nt = (depth_of(t) >= 2 and len(pathlib.PurePosixPath(dest).parts) >= 1) or has_empty_dir(t) or cwd != "/"
         ctx.count(case, nt, sample=dict(op=op, tree=t, dest=dest, write_into=write_into, cwd=cwd, block=block, list_only_server=listonly),
                   classes=["op_" + op, "listonly" if listonly else "mlsd", "wi_%s" % write_into, "cwd_" + cwd,
-                           "depth_%d" % depth_of(t)] + (["empty_dir"] if has_empty_dir(t) else []))
+                           "depth_%d" % depth_of(t)] + (["empty_dir"] if has_empty_dir(t) else [])
+                  + (["conflict_" + info["conflict"], "conflict_refused" if info.get("refused") else "conflict_accepted"] if info.get("conflict") else [])
+                  + (["conflict_at_empty_dir"] if info.get("conflict_empty_dir") else []))
 
 
 def part_trees(ctx):
